@@ -3,6 +3,7 @@ package main
 import (
 	"context"
 	"fmt"
+	"math"
 	"sort"
 	"sync"
 	"time"
@@ -97,7 +98,7 @@ func genAsync(r *hlib.Rand) input {
 	if r.Chance(3, 4) {
 		limiter, lburst = "burst", hlib.Pick(r, []int{1, 1, 2, 15})
 	}
-	return input{Kind: "async", Cfg: cfgIn{Limit: limit}, Async: &asyncIn{Subs: subs, Script: script, Limiter: limiter, Burst: lburst}}
+	return input{Kind: "async", Cfg: cfgIn{Limit: limit}, Async: &asyncIn{Subs: subs, Script: script, Limiter: limiter, Burst: lburst, IdleMax: r.Chance(1, 4)}}
 }
 
 func idOf(i *gostatsd.Instance) string {
@@ -131,9 +132,14 @@ func runAsync(in input) hlib.Case {
 	mock := clock.NewMock(time.Now())
 	ctx, cancel := context.WithCancel(clock.Context(context.Background(), mock))
 	limiter, _ := mkLimiter(in.Async.Limiter, in.Async.Burst)
+	idlePeriod := 90 * time.Minute
+	if in.Async.IdleMax { // the "never evict" value
+		idlePeriod = time.Duration(math.MaxInt64)
+		c.Class += "/idle=max"
+	}
 	ccp := cloudprovider.NewCachedCloudProvider(quietLogger(), limiter, prov, gostatsd.CacheOptions{
 		CacheRefreshPeriod:        time.Hour,
-		CacheEvictAfterIdlePeriod: 90 * time.Minute,
+		CacheEvictAfterIdlePeriod: idlePeriod,
 		CacheTTL:                  time.Minute,
 		CacheNegativeTTL:          time.Minute,
 	})
@@ -280,8 +286,21 @@ func runAsync(in input) hlib.Case {
 			checkPeek("after refresh tick")
 		}
 	}
+	// phase 3 with the largest idle period: the second tick evicts nothing and queries everything again
+	if ok && len(c.Monitors) == 0 && in.Async.IdleMax {
+		want := append([]string(nil), submitted...)
+		for s := range distinct {
+			want = append(want, s, s)
+		}
+		mock.Add(time.Hour)
+		if waitFor("the answers of the second refresh", func() bool { return gotCount() >= len(want) && positions() >= len(want) }) {
+			time.Sleep(15 * time.Millisecond)
+			checkAnswers("after second tick", want)
+			checkPeek("after second tick")
+		}
+	}
 	// phase 3: second tick: everything has been idle for more than 90 minutes of the ticker's clock
-	if ok && len(c.Monitors) == 0 {
+	if ok && len(c.Monitors) == 0 && !in.Async.IdleMax {
 		before := positions()
 		mock.Add(time.Hour)
 		waitFor("eviction of idle entries", func() bool {
